@@ -1,6 +1,19 @@
 """Human-written level texts for MANIFEST.json (one entry per claimed property)."""
 
 TEXT = {
+    "C01": dict(
+        text="Lean theorems (OZ/Props/C01.lean) over a line-by-line model of Base::update / mint / transfer / transfer_from / "
+             "approve / burn / burn_from prove, by induction over ALL finite operation histories with arbitrary Int amounts "
+             "and arbitrary authorizing subsets: total_supply = sum of balances, balances >= 0, 0 <= supply <= i128::MAX "
+             "(inv_reachable); supply moves by exactly +amount / -amount / 0 (apply_inv, *_supply); the unchecked additions "
+             "in update can never overflow (update_no_overflow); a failed call is the identity (failed_no_effect); replaying "
+             "the emitted events reproduces every balance (replay_events). The model is tied to /repo by driving the real "
+             "library token through the Soroban host with exact authorization subsets, boundary amounts and ledger movement "
+             "and diffing every getter, event and demanded authorization after every call; the property's conclusion is also "
+             "evaluated directly on the implementation's observations (monitor).",
+        note="Trusted: Lean kernel; standard axioms only; hand-written model + differential correspondence; host rollback, "
+             "auth and TTL semantics. Proved for the Base token; other flavours funnel into Base::update (their gates are "
+             "covered under C04/C05/C13/C16)."),
     "C12": dict(
         text="Lean theorems (OZ/Props/C12.lean) prove for ALL x, y, d in i128 that the coded floor/ceil/trunc mul-div "
              "(native product, else widening to I256 and narrowing; the private div_floor/div_ceil helpers exactly as "
